@@ -6,9 +6,10 @@ import gen as G
 import armh
 
 PROP = 'C06'
-LEAN_MODULES = ['BR.Props.C06', 'BR.Props.C06Deriv']
+LEAN_MODULES = ['BR.Props.C06', 'BR.Props.C06Deriv', 'BR.Props.C06Body']
 THEOREMS = ['BR.C06.jacobianSpace_col', 'BR.C06.jacobianSpaceAux_col', 'BR.C06.statics_power', 'BR.C06.statics_linear', 'BR.Rot.exp6_conj', 'BR.Rot.fkinSpace_conj',
-            'BR.C06D.hasDeriv_jointExp', 'BR.C06D.exp6_revolute', 'BR.C06D.fk_hasDeriv', 'BR.C06D.jacobianSpace_is_derivative']
+            'BR.C06D.hasDeriv_jointExp', 'BR.C06D.exp6_revolute', 'BR.C06D.fk_hasDeriv', 'BR.C06D.jacobianSpace_is_derivative',
+            'BR.C06B.jointExp_neg_mul', 'BR.C06B.adjoint_jointExp_self', 'BR.C06B.jacobianBody_cols', 'BR.C06B.jacobianBody_eq']
 TIE = ('K: jacobianSpace / jacobianBody of lean/BR/Model/MR.lean (Float instance, compiled driver) against Arm.jacobian / Arm.jacobianBody on the arm\'s stored screws, plus the statics maps; '
        'the derivative relation itself is evaluated on the real Arm by Richardson-extrapolated central differences of Arm.FK.')
 TRUSTED = ['Lean 4.33 kernel + Mathlib v4.33 (axioms: propext, Classical.choice, Quot.sound)', 'harness/armh.py, harness/c06.py (Richardson differences with steps >= 1e-4, frame references from the constructor arguments)',
@@ -16,7 +17,7 @@ TRUSTED = ['Lean 4.33 kernel + Mathlib v4.33 (axioms: propext, Classical.choice,
 ASSUMPTIONS = ['joint vectors within limits; steps >= 1e-4 so the 1e-6 cut-off of the exponential is never entered', 'comparison to 1e-6 relative to the Jacobian norm']
 RULE = ('arms (6R test arm with link frames and masses, random 1..7-joint chains, bundled URDF arms; after move, tool change and tool restore) x joint vectors x rates x wrenches; '
         'distinct = distinct (arm, configuration); non-trivial = configuration not the zero vector')
-SAMPLED = ['J_space = d(FK)/d(theta) inside the 1e-6 cut-off band of a joint, and the body / link / tool-aligned variants of the derivative statement (Richardson central differences on the implementation)', 'numericalJacobian = analytic (finite differences)']
+SAMPLED = ['J_space = d(FK)/d(theta) inside the 1e-6 cut-off band of a joint, and the link / tool-aligned variants (Richardson central differences on the implementation); body = Ad(inv T) space is a theorem for exact joints, sampled inside the band', 'numericalJacobian = analytic (finite differences)']
 
 
 def vee6(M):
